@@ -67,6 +67,39 @@ type Cfg struct {
 	ApkSigKey, ApkSigKeyName                                       string
 
 	Entries []Entry
+
+	// per-format override blocks (nil = none): the overridable fields the generators use
+	Ov map[string]*OvCfg
+}
+
+// OvCfg is one `overrides.<format>` block: relation lists (wholesale when non-empty), umask (when non-zero) and the four common
+// scripts (field by field).
+type OvCfg struct {
+	Depends, Recommends, Suggests, Conflicts, Replaces, Provides []string
+	Umask                                                        int
+	Scripts                                                      map[string]string // common slot -> path relative to the source root
+	ScriptCid                                                    map[string]string
+	ScriptMt                                                     map[string]int
+}
+
+var commonSlots = []string{"preinstall", "postinstall", "preremove", "postremove"}
+
+func (c *Cfg) ovM() M {
+	out := M{}
+	for _, f := range allFormats {
+		o := c.Ov[f]
+		if o == nil {
+			o = &OvCfg{}
+		}
+		sc, scm := M{}, M{}
+		for _, s := range commonSlots {
+			sc[s] = o.ScriptCid[s]
+			scm[s] = o.ScriptMt[s]
+		}
+		out[f] = M{"block": c.Ov[f] != nil, "depends": strs(o.Depends), "recommends": strs(o.Recommends), "suggests": strs(o.Suggests), "conflicts": strs(o.Conflicts),
+			"replaces": strs(o.Replaces), "provides": strs(o.Provides), "umask": o.Umask, "scripts": sc, "script_mt": scm}
+	}
+	return out
 }
 
 var scriptSlots = []string{"preinstall", "postinstall", "preremove", "postremove",
@@ -125,6 +158,7 @@ func (c *Cfg) M() M {
 		"sig": M{"deb_key": c.DebSigKey != "", "deb_key_id": c.DebSigKeyID, "deb_method": c.DebSigMethod, "deb_type": c.DebSigType, "deb_signer": c.DebSigSigner,
 			"rpm_key": c.RpmSigKey != "", "rpm_key_id": c.RpmSigKeyID, "apk_key": c.ApkSigKey != "", "apk_key_name": c.ApkSigKeyName},
 		"entries": entriesM(c.Entries),
+		"ov":      c.ovM(),
 	}
 }
 
@@ -408,6 +442,44 @@ func (c *Cfg) YAML(root string) string {
 			w.line("ipk:")
 			w.b.WriteString(sub.b.String())
 		}
+	}
+	if len(c.Ov) > 0 {
+		w.open("overrides")
+		for _, f := range allFormats {
+			o := c.Ov[f]
+			if o == nil {
+				continue
+			}
+			w.open(f)
+			n := w.b.Len()
+			w.list("depends", o.Depends)
+			w.list("recommends", o.Recommends)
+			w.list("suggests", o.Suggests)
+			w.list("conflicts", o.Conflicts)
+			w.list("replaces", o.Replaces)
+			w.list("provides", o.Provides)
+			if o.Umask != 0 {
+				w.line("umask: 0o%o", o.Umask)
+			}
+			any := false
+			for _, sl := range commonSlots {
+				any = any || o.Scripts[sl] != ""
+			}
+			if any {
+				w.open("scripts")
+				for _, sl := range commonSlots {
+					if p := o.Scripts[sl]; p != "" {
+						w.line("%s: %s", sl, yq(root+"/"+p))
+					}
+				}
+				w.close()
+			}
+			if w.b.Len() == n { // a block that sets nothing overridable here: still a block
+				w.line("depends: []")
+			}
+			w.close()
+		}
+		w.close()
 	}
 	return w.b.String()
 }
